@@ -79,6 +79,56 @@ def balance_assumption(sym, nodes):
     return AND(EQ(dh, 0), EQ(dc, 0))
 
 
+def sym_xh_reaction(E, n, nh, omax=1, els=("C", "O"), no_relay=False):
+    """a reaction whose centre hydrogens are all explicit: n heavy atoms (symbolic element, implicit count equal on both
+    sides, bond orders per side) and nh explicit hydrogens, each bonded on either side to a solver-chosen heavy atom or
+    (the first two) to each other (H-H); at least one hydrogen changes its partner.  Returns (G, H, hyd, att)."""
+    G, H, rs = sym_reaction(E, "r", n, els=els, hs=(0, 1), cs=(0,), orders=tuple(range(omax + 1)))
+    nodes = list(G.nodes)
+    E.assume(AND([EQ(rs["h"]["G", v], rs["h"]["H", v]) for v in nodes]))
+    hyd = [n + 1 + j for j in range(nh)]
+    att = {}
+    heavy_opts = list(range(1, n + 1))
+    for side, g in (("G", G), ("H", H)):
+        for j, hv in enumerate(hyd):
+            g.add_node(hv, element="H", aromatic=False, hcount=0, charge=0, atom_map=hv)
+            # 0 = bonded to the other hydrogen of the first pair (H-H); a third hydrogen always sits on a heavy atom
+            att[side, hv] = int(E.choice("a%s%d" % (side, j), heavy_opts + ([0] if nh >= 2 and j < 2 else [])))
+        if nh >= 2:
+            E.assume((att[side, hyd[0]] == 0) == (att[side, hyd[1]] == 0))
+        for hv in hyd:
+            if att[side, hv] == 0:
+                g.add_edge(hyd[0], hyd[1], order=1)
+            else:
+                g.add_edge(att[side, hv], hv, order=1)
+    E.assume(any(att["G", hv] != att["H", hv] for hv in hyd))
+    if nh >= 2:  # the first two hydrogens are interchangeable: one representative per swap
+        E.assume((att["G", hyd[0]], att["H", hyd[0]]) <= (att["G", hyd[1]], att["H", hyd[1]]))
+    if no_relay:
+        # the library counts the hydrogens on a heavy atom, it does not tell them apart: a reaction in which an atom gives
+        # one hydrogen away and receives another one is rendered by its net effect.  Exclude those where the changed
+        # bonds themselves are compared.
+        for v in heavy_opts:
+            loses = any(att["G", hv] == v and att["H", hv] != v for hv in hyd)
+            gains = any(att["H", hv] == v and att["G", hv] != v for hv in hyd)
+            E.assume(not (loses and gains))
+    return G, H, hyd, att
+
+
+def as_parsed(g, hyd):
+    """the molecule as an unmapped SMILES gives it: hydrogens on heavy atoms are counts, H-H and a free proton are atoms"""
+    g2 = g.copy()
+    for v in hyd:
+        heavy_nb = [w for w in g2.neighbors(v) if g2.nodes[w]["element"] != "H"]
+        if heavy_nb:
+            g2.nodes[heavy_nb[0]]["hcount"] = g2.nodes[heavy_nb[0]]["hcount"] + 1
+            g2.remove_node(v)
+    for v in g2.nodes:
+        g2.nodes[v]["atom_map"] = 0
+        g2.nodes[v]["neighbors"] = []
+    return g2
+
+
 def sym_substrate(E, pre, n, edges, els=("C", "O"), hs=(0, 1, 2), cs=(0, 1), orders=(1, 2), ids=None):
     ids = ids or list(range(1, n + 1))
     g = nx.Graph()
